@@ -56,7 +56,7 @@ P = {
              text='PROOF (partial): a successful ConvexPolygon has its vertices among the input, all coplanar, non-zero normal, centre = mean of the distinct input, and the constructor commutes with translations; a successful ConvexPolyhedron has every face oriented away from the centre, satisfies Euler, centre = vertex mean, centre inside. That the angular sort yields the counter-clockwise cycle (K6) is not proved: the stored cycle + normal of every polygon/polyhedron the implementation builds from permuted, duplicated, re-oriented input (and of -p, -(-p), fed-back sections) is judged by the Lean decision procedures polygonValidB / polyhedronValidB and compared with the model constructor and the exact hull.',
              ref='DESIGN.md §5 C09'),
  'C13': dict(tech='Lean 4 theorems (48 signed permutations: dot/cross laws, membership and flat intersection equivariance, bijectivity) + metamorphic correspondence',
-             text='PROOF (partial): dot/cross under the 48 signed permutations (with the determinant factor), membership in every flat type and intersection of flats commute with permutation∘scaling∘translation for all k>0, well-formedness preserved, transformations bijective. Polygon/polyhedron equivariance and the scaling laws k, k^2, k^3 of the measures are decided per run metamorphically: every query on all 49 type pairs is re-evaluated under random symmetries/translations/scalings and compared with the transformed answer.',
+             text='PROOF (partial only for intersection results of polygons/polyhedra): for all 48 signed permutations, translations and k>0: dot/cross laws (determinant factor), membership tests of every type incl. polygons and polyhedra commute, flat intersection is equivariant, angle/parallel/orthogonal and == are invariant, squared distance scales by k^2 (all documented pairs), lengths by k, polygon area by k^2 (Valid preserved under reflections with the pseudo-vector normal), polyhedron volume and the volume of any closed surface by k^3. Constructor commutation and intersection with polygon/polyhedron operands are decided per run metamorphically (49 type pairs under random symmetries/translations/scalings).',
              ref='DESIGN.md §5 C13'),
  'C14': dict(tech='correspondence against closed forms (float, 1e-9) + Lean measure theorems; combinatorial/frame theorems when the Builders module is present',
              text='PROOF (partial, weakest of the set): only the measure theory behind the closed forms is proved (closed surface ⇒ vector areas cancel, reference-independent volume); counts, frame selection and on-surface lemmas are being added. Decided per run: counts V/E/F and Euler, every vertex on the specified circle/cylinder/cone/sphere at equal steps, latitude rings of the Sphere, apex/top circle position, closed-form area and volume at relative 1e-9, arguments unmodified — over the 26 lattice axis directions, near-axis directions straddling SMALL_ANGLE, random directions, n 3..24, Sphere n1 3..12 × n2 2..5.',
